@@ -2,6 +2,7 @@
 
 mod checks;
 mod core;
+mod server;
 
 use std::collections::{BTreeMap, BTreeSet};
 use std::path::{Path, PathBuf};
@@ -308,6 +309,7 @@ fn run_parent(def: &'static CheckDef, tier: Tier, seed: u64) -> i32 {
         }
     }
     let rdir = root.join("replays").join(def.id);
+    let _ = std::fs::remove_dir_all(&rdir);
     let mut new_count = 0;
     for (sig, vs) in &new_by_sig {
         std::fs::create_dir_all(&rdir).unwrap();
